@@ -10,6 +10,10 @@
     c02.obj <kind> <obj>    GetHash() of an object of any serialisable class          → hex
     c02.objpair <kind> <a> <b>   a == b (by serialisation), GetHash of both       → <0|1>:<hashA>:<hashB>
       kind ∈ outpoint (hash,n) | txin | txout | swit | inwit (stack) | wit | tx | hdr | blk
+    c02.objcross <kindA> <a> <kindB> <b>   a == b for objects of any two classes (NotImplemented → False)  → 1 | 0
+    c02.pyhash <kind> <obj>   Model.objPyHashWith (for tx also Model.pyHashWith) run with the injective
+                              stand-in `pyHash bs = leNat (bs ++ [1])`; the harness decodes the byte string
+                              the model hashes and applies CPython's hash() to it      → hexadecimal | err:<family>
 -/
 import Driver.Util
 import Driver.TxFmt
@@ -53,6 +57,23 @@ def objPair (a b : Obj) : Res String := do
   let hb ← b.getHashWith Crypto.hash256
   pure s!"{if e then "1" else "0"}:{toHex ha}:{toHex hb}"
 
+/-- injective stand-in for CPython's `hash` of a bytes object (the preimage can be read back) -/
+def pyHashStandIn (bs : Bytes) : Int := Int.ofNat (leNat (bs ++ [1]))
+
+/-- the stand-in value in hexadecimal (it is never negative) -/
+def hexOfInt (i : Int) : String := String.ofList (Nat.toDigits 16 i.toNat)
+
+def pyHashOp (o : Obj) : Res String := do
+  let h ← objPyHashWith pyHashStandIn ⟨.immutable, o⟩
+  let h' ← objPyHashWith pyHashStandIn ⟨.mutable, o⟩
+  if h ≠ h' then throw (.py "model-class-dependent-hash")
+  match o with
+  | .tx t =>
+      let h2 ← pyHashWith pyHashStandIn ⟨.mutable, t⟩
+      if h2 ≠ h then throw (.py "model-tx-hash-differs")
+      pure (hexOfInt h)
+  | _ => pure (hexOfInt h)
+
 def handle (op : String) (args : List String) : Option String :=
   match op, args with
   | "c02.ids", [t] => some <| match parseTx? t with
@@ -76,6 +97,12 @@ def handle (op : String) (args : List String) : Option String :=
   | "c02.objpair", [k, a, b] => some <| match parseObj? k a, parseObj? k b with
       | some a, some b => Res.render (objPair a b)
       | _, _ => badArgs
+  | "c02.objcross", [ka, a, kb, b] => some <| match parseObj? ka a, parseObj? kb b with
+      | some a, some b => Res.render ((objEq ⟨.immutable, a⟩ ⟨.mutable, b⟩).map fun r => if r then "1" else "0")
+      | _, _ => badArgs
+  | "c02.pyhash", [k, a] => some <| match parseObj? k a with
+      | some o => Res.render (pyHashOp o)
+      | none => badArgs
   | "c02.eq", [a, b] => some <| match parseTx? a, parseTx? b with
       | some a, some b =>
           Res.render ((pyEq ⟨.immutable, a⟩ ⟨.mutable, b⟩).map fun r => if r then "1" else "0")
